@@ -76,7 +76,7 @@ def explore(ck, scenario, bound, stats):
                     tid, en, ch = p[0], p[1], p[2]
                     if tid >= 0 and (en >> tid) & 1 and ch != tid: pre += 1
                 for i in range(len(sched), len(pts)):
-                    tid, en, ch, label, h = pts[i]
+                    tid, en, ch, label, h = pts[i][:5]
                     states.add(h)
                     seen.setdefault((h, ch), pre_at[i])
                     for alt in range(8):
